@@ -70,16 +70,35 @@ def run(tier, seed, verdict, only=None):
                 return state["dim"]
             state["n"] += 1
             da = blk.create_data_array("a%d" % state["n"], "t", data=[0.0])
+            how = state["n"] % 3          # every third descriptor is first created differently, then re-described
             if d["kind"] == "sampled":
                 off = d["off"] / G
-                dim = da.append_sampled_dimension(d["iv"] / G, offset=off)
-                if off != 0 and dim.offset != off:
-                    raise core.MachineryError("offset not stored")
+                if how == 1:
+                    # ... with another interval and another (non-zero) offset, then set to the configuration's values
+                    dim = da.append_sampled_dimension(d["iv"] / G + 0.5, offset=off + 2.0 if off + 2.0 != 0 else 1.0)
+                    dim.sampling_interval = d["iv"] / G
+                    dim.offset = off
+                    counts["redescribed"] = counts.get("redescribed", 0) + 1
+                else:
+                    dim = da.append_sampled_dimension(d["iv"] / G, offset=off)
+                    if off != 0 and dim.offset != off:
+                        raise core.MachineryError("offset not stored")
             elif d["kind"] == "range":
-                dim = da.append_range_dimension(ticks=[t / G for t in d["ticks"]])
+                ticks = [t / G for t in d["ticks"]]
+                if how == 1:
+                    dim = da.append_range_dimension(ticks=[t + 1.0 for t in ticks] + [ticks[-1] + 5.0])
+                    dim.ticks = ticks
+                    counts["redescribed"] = counts.get("redescribed", 0) + 1
+                else:
+                    dim = da.append_range_dimension(ticks=ticks)
             else:
                 labels = ["l%d" % i for i in range(d["n"])]
-                dim = da.append_set_dimension(labels=labels if labels else None)
+                if how == 1 and labels:
+                    dim = da.append_set_dimension(labels=["x"] + labels)
+                    dim.labels = labels
+                    counts["redescribed"] = counts.get("redescribed", 0) + 1
+                else:
+                    dim = da.append_set_dimension(labels=labels if labels else None)
             # reach the descriptor the way a user does after creation: through the container
             dim = da.dimensions[0]
             state["desc"], state["dim"] = key, dim
